@@ -94,6 +94,10 @@ AttackList == <<
    [AT(<<"sum", "mul2", "cube">>, Aux2) EXCEPT !.log_len = 4, !.rem = 15, !.queries = 3],
    [AT(<<"sum", "mul2", "cube">>, Aux2) EXCEPT !.log_len = 3, !.rem = 7, !.queries = 2, !.ext = 2, !.field = "f128"],
    [AT(<<"d5", "sum">>, Aux3) EXCEPT !.log_len = 5, !.rem = 31, !.queries = 4, !.hash = "rp64_256", !.blowup = 16],
+   \* an auxiliary segment that declares ZERO random elements (geometric auxiliary columns need none): its
+   \* commitment must be absorbed into the transcript all the same
+   [AT(<<"sum", "mul2", "cube">>, <<[width |-> 2, rands |-> 0, src |-> <<0, 1>>, geo |-> TRUE, astep |-> 5]>>) EXCEPT !.queries = 2],
+   [AT(<<"d5", "sum">>, <<[width |-> 3, rands |-> 0, src |-> <<0, 1, 0>>, geo |-> TRUE, astep |-> 0]>>) EXCEPT !.ext = 2, !.hash = "rp64_256"],
    \* partitioned row hashing: widths that are not multiples of the partition size (a short last partition)
    [AT(<<"sum", "mul2", "cube", "sum", "id">>, Aux3) EXCEPT !.parts = 2, !.hash_rate = 1],
    [AT(<<"sum", "mul2", "cube", "sum", "id">>, Aux3) EXCEPT !.parts = 3, !.hash_rate = 2, !.ext = 2],
